@@ -42,6 +42,7 @@ class LP(FP):
     props = set()
     aliases = {}
     boolexprs = set()
+    lists = set()
     def unary(self):
         if self.peek() == ("op", "!"):
             self.eat()
@@ -88,6 +89,10 @@ class LP(FP):
                     a = f"(({a} + 1) % {2 ** self.W})"
                 elif m == "leading_zeros":
                     a = f"(RI.clz {self.W} {a})"
+                elif m == "len" and a == "BITSPLITS":
+                    a = f"(List.length bitsplits{self.suffix})"
+                elif m == "len" and a in self.lists:
+                    a = f"(List.length {a})"
                 elif m == "len":
                     a = f"(Array.size {a})"
                 else:
@@ -113,6 +118,23 @@ class LP(FP):
                 self.eat("op", ")")
                 return f"({ctor} {e})"
             return ctor
+        if k == "id" and v == "None":
+            self.eat()
+            return "none"
+        if k == "id" and v == "Some" and self.peek(1) == ("op", "("):
+            self.eat(); self.eat()
+            x = self.expr(); self.eat("op", ")")
+            return f"(some {x})"
+        if k == "id" and v == "mk_tiny" and self.peek(1) == ("op", "("):
+            # `Some(Tiny { sz, bits, sz_spent: 0, last: 0 })`: the two fields that carry information
+            self.eat(); self.eat()
+            x = self.expr(); self.eat("op", ","); y = self.expr(); self.eat("op", ")")
+            return f"(some ({x}, {y}))"
+        if k == "id" and v == "sortdedup" and self.peek(1) == ("op", "("):
+            # `v.sort(); v.dedup();` — `std`'s functions are a parameter of the translated function
+            self.eat(); self.eat()
+            x = self.expr(); self.eat("op", ")")
+            return f"(sd {x})"
         if k == "id" and v == "hasword" and self.peek(1) == ("op", "("):
             self.eat(); self.eat()
             arr = self.eat("id"); self.eat("op", ","); x = self.expr(); self.eat("op", ")")
@@ -142,6 +164,8 @@ class LP(FP):
             self.eat("idx")
             e = self.expr()
             self.eat("idxend")
+            if v in self.lists:
+                return f"(List.getD {v} {e} 0)"
             return f"(RI.idx {v} {e})"
         if k == "id" and v in ("split_u64", "split_u32") and self.peek(1) == ("op", "("):
             self.eat(); self.eat()
@@ -243,8 +267,21 @@ class SP:
         if p.peek()[0] == "id" and p.peek(1) == ("op", ".") and p.peek(2)[0] == "id" and p.peek(3) == ("op", "=") and p.peek(4) != ("op", "="):
             v = p.eat("id"); p.eat(); f = p.eat("id"); p.eat()
             e = p.expr()
-            p.eat("op", ";")
+            if p.peek() == ("op", ";") or not self.at("}"):
+                p.eat("op", ";")
             return ("assign", f"{v}_{f}", e)
+        if self.at("while") and p.peek(1) == ("id", "let"):
+            # `while let Some(&x) = a.get(self.index) { .. }`: a walk along the slice; the body must begin by advancing the
+            # index, so `len - index + 1` iterations always suffice
+            p.eat(); p.eat()
+            p.eat("id", "Some"); p.eat("op", "("); p.eat("op", "&"); x = p.eat("id"); p.eat("op", ")")
+            p.eat("op", "=")
+            arr = p.eat("id"); p.eat("op", "."); p.eat("id", "get"); p.eat("op", "(")
+            i = p.expr(); p.eat("op", ")")
+            body = self.braced()
+            if not body or body[0] != ("assign", i, f"({i} + 1)"):
+                raise TieError(f"while let over {arr}: the body does not begin by advancing {i}")
+            return ("whilelet", x, arr, i, body)
         if self.at("while"):
             p.eat()
             c = p.expr()
@@ -296,6 +333,11 @@ class SP:
             p.eat("op", ")")
             p.eat("op", ";")
             return ("swap", arr, i, x)
+        if self.at("forzip"):
+            # `for (x, w) in xs.iter().cloned().zip(ws.iter().cloned()) { .. }` (rewritten by the caller, shape pinned there)
+            p.eat(); x = p.eat("id"); w = p.eat("id"); xs = p.eat("id"); ws = p.eat("id")
+            body = self.braced()
+            return ("forzip", x, w, xs, ws, body)
         if self.at("for") and p.peek(2) == ("id", "in") and p.peek(3)[0] == "id" and p.peek(4) == ("op", ".") and p.peek(5) == ("id", "iter"):
             # `for b in xs.iter().cloned() { .. }` over a row of BITSPLITS
             p.eat(); v = p.eat("id"); p.eat(); xs = p.eat("id")
@@ -402,6 +444,10 @@ def assigned(stmts):
             out |= assigned(s[4])
         elif s[0] == "forlist":
             out |= assigned(s[3])
+        elif s[0] == "forzip":
+            out |= assigned(s[5])
+        elif s[0] == "whilelet":
+            out |= assigned(s[4])
         elif s[0] == "matchlf":
             for _, (_, b) in s[2].items():
                 out |= assigned(b)
@@ -423,12 +469,15 @@ class Gen:
         self.szvar = None         # `&mut self` arms: the header's member count is returned with the answer
     def value(self, e):
         v = f"(decide {e})" if e in self.props else e
+        if self.retstate:
+            return f"({v}, {self.retstate})"
         if self.pure:
             return v
         if self.szvar:
             return f"(Except.ok (({v}, {self.szvar}), a))"
         return f"(Except.ok ({e}, a))"
     boolexprs = set()
+    retstate = None           # `&mut self` methods of a plain struct: the fields are returned with the value
     def diverges(self, s):
         """every branch of the `if` statement ends in return / panic"""
         def div(b):
@@ -546,6 +595,42 @@ class Gen:
             pats1 = ", ".join([f"{v} :: {restv}"] + muts)
             self.defs.append(f"def {fname} {sig} : {arrow}\n  | {pats0} => {after}\n  | {pats1} => {bodyt}")
             return f"({fname} {' '.join(immut)} {xs} {' '.join(muts)})".replace("  ", " ")
+        if k == "whilelet":
+            _, x, arr, i, body = s
+            self.nloops += 1
+            idx = self.nloops
+            fname = f"{self.name}_loop{idx}"
+            fuel = f"fuel{idx}"
+            muts = [y for y in scope if y in assigned(body)]
+            immut = [y for y in scope if y not in muts]
+            after = self.comp(rest, scope, tail)
+            cont = f"({fname} {' '.join(immut)} {fuel} {' '.join(muts)})".replace("  ", " ")
+            bodyt = self.comp(body, scope + [fuel, x], cont)
+            sig = " ".join(f"({y} : {self.ty(y)})" for y in immut)
+            mty = " → ".join(self.ty(y) for y in muts)
+            arrow = f"Nat → {mty + ' → ' if muts else ''}{self.ret}"
+            ms = ", ".join(muts)
+            self.defs.append(f"def {fname} {sig} : {arrow}\n  | 0, {ms} => {after}\n  | {fuel} + 1, {ms} => "
+                             f"(if {i} < Array.size {arr} then (let {x} := RI.idx {arr} {i}; {bodyt}) else {after})")
+            return f"({fname} {' '.join(immut)} ((Array.size {arr} - {i}) + 1) {' '.join(muts)})".replace("  ", " ")
+        if k == "forzip":
+            _, x, w, xs, ws, body = s
+            self.nloops += 1
+            idx = self.nloops
+            fname = f"{self.name}_loop{idx}"
+            rx, rw = f"restx{idx}", f"restw{idx}"
+            muts = [y for y in scope if y in assigned(body)]
+            immut = [y for y in scope if y not in muts and y not in (xs, ws)]
+            after = self.comp(rest, [y for y in scope if y not in (xs, ws)], tail)
+            cont = f"({fname} {' '.join(immut)} {rx} {rw} {' '.join(muts)})".replace("  ", " ")
+            bodyt = self.comp(body, [y for y in scope if y not in (xs, ws)] + [rx, rw, x, w], cont)
+            sig = " ".join(f"({y} : {self.ty(y)})" for y in immut)
+            mty = " → ".join(self.ty(y) for y in muts)
+            arrow = f"List Nat → List Nat → {mty + ' → ' if muts else ''}{self.ret}"
+            ms = ", ".join(muts)
+            self.defs.append(f"def {fname} {sig} : {arrow}\n  | [], _, {ms} => {after}\n  | _ :: _, [], {ms} => {after}\n"
+                             f"  | {x} :: {rx}, {w} :: {rw}, {ms} => {bodyt}")
+            return f"({fname} {' '.join(immut)} {xs} {ws} {' '.join(muts)})".replace("  ", " ")
         if k == "for":
             _, v, lo, hi, body = s
             self.nloops += 1
@@ -780,7 +865,106 @@ def gen_tiny_contains(src, W, suffix):
     out.append(f"def tiny_contains_{suffix} (self_sz : Nat) (self_bits : Nat) (e : Nat) : Bool := {top}")
     return out
 
-def gen_loops(s64, s32):
+def gen_tiny_new(src, W, suffix):
+    """`Tiny::new_sorted_deduped(v: &[u64])` / `Tiny::new(mut v: Vec<u32>)`: the constructor of the inline word"""
+    if W == 64:
+        m = re.search(r'\n    fn new_sorted_deduped\(v: &\[u64\]\) -> Option<Self> \{', src)
+        zipre = r'for \(x, nbits\) in v\.iter\(\)\.cloned\(\)\.zip\(bitsplits\.iter\(\)\.cloned\(\)\) \{'
+    else:
+        m = re.search(r'\n    fn new\(mut v: Vec<u32>\) -> Option<Self> \{', src)
+        zipre = r'for \(x, nbits\) in v\.into_iter\(\)\.zip\(bitsplits\.iter\(\)\.cloned\(\)\) \{'
+    if not m:
+        raise TieError(f"cannot find the inline constructor ({suffix})")
+    body = body_of(src, m.end() - 1)[0]
+    body, n1 = re.subn(zipre, 'forzip x nbits v bitsplits {', body, count=1)
+    body, n2 = re.subn(r'Some\(Tiny \{\s*sz,\s*bits,\s*sz_spent: 0,\s*last: 0,\s*\}\)', 'mk_tiny(sz, bits)', body, count=1)
+    n3 = 1
+    if W == 32:
+        body, n3 = re.subn(r'v\.sort\(\);\s*v\.dedup\(\);', 'v = sortdedup(v);', body, count=1)
+    if (n1, n2, n3) != (1, 1, 1) or "Tiny {" in body:
+        raise TieError(f"inline constructor ({suffix}): shape {(n1, n2, n3)}")
+    sp = SP(lex(body), W, suffix)
+    sp.p.fnames = {"log_2"}
+    sp.p.lists = {"v", "bitsplits"}
+    stmts = sp.block()
+    if sp.p.peek()[0] != "eof":
+        raise TieError(f"inline constructor: trailing tokens {sp.p.peek()}")
+    params = [("v", "List Nat")] + ([("sd", "List Nat → List Nat")] if W == 32 else [])
+    g = Gen(f"tiny_new_{suffix}", params, "Option (Nat × Nat)", pure=True, props=sp.p.props)
+    top = g.comp(stmts, [x for x, _ in params], None)
+    sig = " ".join(f"({x} : {t})" for x, t in params)
+    return g.defs + [f"def tiny_new_{suffix} {sig} : Option (Nat × Nat) := {top}"]
+
+def gen_tiny_singleton(src, W, suffix):
+    """`Tiny::from_singleton`: the inline word of a one-element set"""
+    ty = "u64" if W == 64 else "u32"
+    m = re.search(r'\n    fn from_singleton\(x: %s\) -> Option<Self> \{' % ty, src)
+    if not m:
+        raise TieError(f"cannot find Tiny::from_singleton ({suffix})")
+    body = body_of(src, m.end() - 1)[0]
+    body, n1 = re.subn(r'Some\(Tiny \{\s*sz: 1,\s*bits: x as usize,\s*sz_spent: 0,\s*last: 0,\s*\}\)', 'mk_tiny(1, x as usize)', body, count=1)
+    body, n2 = re.subn(r'BITSPLITS\[1\]\[0\]', 'bs10', body, count=1)
+    if (n1, n2) != (1, 1) or "Tiny {" in body:
+        raise TieError(f"Tiny::from_singleton ({suffix}): shape {(n1, n2)}")
+    lp = LP(lex(body), W, {"log_2"}, suffix)
+    t = lp.expr()
+    if lp.peek()[0] != "eof":
+        raise TieError(f"Tiny::from_singleton: trailing tokens {lp.peek()}")
+    t = t.replace("bs10", f"(List.getD (List.getD bitsplits{suffix} 1 []) 0 0)")
+    return [f"def tiny_from_singleton_{suffix} (x : Nat) : Option (Nat × Nat) := {t}"]
+
+def gen_iter_stack(isrc, W, suffix):
+    """the `Stack` arm of `Inner::next` (iter.rs): one step of the iteration over an inline set"""
+    ty = "u64" if W == 64 else "u32"
+    m = re.search(r'impl<T: Borrow<Set%s>> Iterator for Inner<T> \{\s*type Item = %s;\s*(?:#\[inline\]\s*)?fn next\(&mut self\) -> Option<Self::Item> \{' % (ty.upper(), ty), isrc)
+    if not m:
+        raise TieError(f"cannot find Inner::next ({suffix})")
+    fb = body_of(isrc, m.end() - 1)[0]
+    mm = re.search(r'Internal::Stack\(_\) => \{', fb)
+    if not mm:
+        raise TieError(f"Inner::next ({suffix}): Stack arm")
+    body = body_of(fb, mm.end() - 1)[0]
+    body = body.replace("super::BITSPLITS", "BITSPLITS").replace("super::mask", "mask")
+    sp = SP(lex(body), W, suffix)
+    sp.p.fnames = set()
+    sp.p.lists = {"bitsplits"}
+    stmts = sp.block()
+    if sp.p.peek()[0] != "eof":
+        raise TieError(f"Inner::next stack arm: trailing tokens {sp.p.peek()}")
+    payload = "self_bits" if W == 64 else "self_stack_bits"      # `SetU32`'s cursor keeps the inline payload in its own field
+    params = [("self_sz", "Nat"), ("self_sz_left", "Nat"), (payload, "Nat"), ("self_last", "Nat")]
+    ret = "Option Nat × Nat × Nat × Nat"
+    g = Gen(f"iter_next_stack_{suffix}", params, ret, pure=True, props=sp.p.props)
+    g.retstate = f"self_sz_left, {payload}, self_last"
+    top = g.comp(stmts, [x for x, _ in params], None)
+    sig = " ".join(f"({x} : {t})" for x, t in params)
+    return g.defs + [f"def iter_next_stack_{suffix} {sig} : {ret} := {top}"]
+
+def gen_iter_big(isrc, W, suffix):
+    """the `Big` arm of `Inner::next` (iter.rs): the walk along a plain table to the next member"""
+    ty = "u64" if W == 64 else "u32"
+    m = re.search(r'impl<T: Borrow<Set%s>> Iterator for Inner<T> \{\s*type Item = %s;\s*(?:#\[inline\]\s*)?fn next\(&mut self\) -> Option<Self::Item> \{' % (ty.upper(), ty), isrc)
+    if not m:
+        raise TieError(f"cannot find Inner::next ({suffix})")
+    fb = body_of(isrc, m.end() - 1)[0]
+    mm = re.search(r'Internal::Big \{ a, \.\. \} => \{', fb)
+    if not mm:
+        raise TieError(f"Inner::next ({suffix}): Big arm")
+    body = body_of(fb, mm.end() - 1)[0]
+    sp = SP(lex(body), W, suffix)
+    sp.p.fnames = set()
+    stmts = sp.block()
+    if sp.p.peek()[0] != "eof":
+        raise TieError(f"Inner::next big arm: trailing tokens {sp.p.peek()}")
+    params = [("a", "Array Nat"), ("self_bits", "Nat"), ("self_index", "Nat"), ("self_sz_left", "Nat")]
+    ret = "Option Nat × Nat × Nat"
+    g = Gen(f"iter_next_big_{suffix}", params, ret, pure=True, props=sp.p.props)
+    g.retstate = "self_index, self_sz_left"
+    top = g.comp(stmts, [x for x, _ in params], None)
+    sig = " ".join(f"({x} : {t})" for x, t in params)
+    return g.defs + [f"def iter_next_big_{suffix} {sig} : {ret} := {top}"]
+
+def gen_loops(s64, s32, i64=None, i32=None):
     out = ["import TinysetModel.Generated.Fns", "import TinysetModel.Generated.Consts",
            "/-! GENERATED by /verif/tools/gen_loops.py from src/setu64.rs and src/setu32.rs — do not edit.",
            "The Robin-Hood primitives `p_lookfor`, `p_insert`, `p_remove` translated statement by statement (see the",
@@ -815,9 +999,16 @@ def gen_loops(s64, s32):
         out += gen_remove(src, W, suffix)
         out += gen_tiny_contains(src, W, suffix)
         out += gen_insert_fast(src, W, suffix)
+        out += gen_tiny_new(src, W, suffix)
+        out += gen_tiny_singleton(src, W, suffix)
+        isrc = i64 if W == 64 else i32
+        if isrc is not None:
+            out += gen_iter_stack(isrc, W, suffix)
+            out += gen_iter_big(isrc, W, suffix)
     out.append("end Gen")
     return "\n".join(out) + "\n"
 
 if __name__ == "__main__":
     import sys
-    print(gen_loops(open("/repo/src/setu64.rs").read(), open("/repo/src/setu32.rs").read()))
+    print(gen_loops(open("/repo/src/setu64.rs").read(), open("/repo/src/setu32.rs").read(),
+                    open("/repo/src/setu64/iter.rs").read(), open("/repo/src/setu32/iter.rs").read()))
